@@ -446,7 +446,13 @@ def fills_one(rep, u, rule):
 
 def c02(rep):
     """R02.5 (C): the C query methods read only the implied set."""
+    sb_queries(rep, 'R02.5')
+
+
+def sb_queries(rep, rule, only=None):
     u = cu(rep)
+    if only is not None:
+        return _sb_decl_queries(rep, u, rule)
     probs = []
     kinds = set()
     M = 'PyDict_GetItem(self->_implied, other)'
@@ -468,9 +474,18 @@ def c02(rep):
         extra = [k for k, t, p in ps.order if k not in (M, 'self->_implied')]
         if extra:
             probs.append('also depends on `%s`' % extra[0][:60])
-    ccheck(rep, 'R02.5', 'SB_extends', not probs and kinds == {True, False},
+    ccheck(rep, rule, 'SB_extends', not probs and kinds == {True, False},
            'isOrExtends(other) = other is a key of self->_implied' if not probs else
            {'problems': sorted(set(probs))[:3]}, construct='membership')
+    _sb_decl_queries(rep, u, rule)
+    tbl = dict((n, fn) for n, fn, _ in u.method_table('SB_methods'))
+    ccheck(rep, rule, 'SB_methods',
+           tbl.get('isOrExtends') == 'SB_extends' and tbl.get('providedBy') == 'SB_providedBy'
+           and tbl.get('implementedBy') == 'SB_implementedBy',
+           'method table %s' % tbl, construct='table')
+
+
+def _sb_decl_queries(rep, u, rule):
     for fn, src, arg in (('SB_providedBy', 'providedBy', 'ob'),
                          ('SB_implementedBy', 'implementedBy', 'cls')):
         D = '%s(_get_module(Py_TYPE(self)), %s)' % (src, arg)
@@ -497,15 +512,8 @@ def c02(rep):
                 if r != want:
                     probs.append('%s declaration: returns `%s`' % (
                         'specification' if tc else 'foreign', r[:70]))
-        ccheck(rep, 'R02.5', fn, not probs and kinds == {True, False},
+        ccheck(rep, rule, fn, not probs and kinds == {True, False},
                'tests membership of self in the implied set of %s(module, %s) '
                '(direct for specification objects, by calling the declaration '
                'otherwise)' % (src, arg) if not probs else
                {'problems': sorted(set(probs))[:3]}, construct='membership')
-    tbl = dict((n, fn) for n, fn, _ in u.method_table('SB_methods'))
-    ccheck(rep, 'R02.5', 'SB_methods',
-           tbl.get('isOrExtends') == 'SB_extends' and tbl.get('providedBy') == 'SB_providedBy'
-           and tbl.get('implementedBy') == 'SB_implementedBy',
-           'method table %s' % tbl, construct='table')
-
-
